@@ -150,6 +150,17 @@ def gen_plan(seed, tier):
       steps.append({"op": "settle"})
     if r.chance(0.03):
       steps.append({"op": "lose"})
+  rn = Rng(mix(seed, "noise2"))
+  for st in steps:
+    # further things a switch says between the parts of a reply: errors about
+    # other requests (any type / code / xid, the pending reply's included in
+    # the xid only), flow-removed notices, a get-config reply
+    if st["op"] in ("echo", "packet_in", "barrier") and rn.chance(0.5):
+      st["op"] = rn.pick(["error", "error", "flow_removed", "config_reply"])
+      if st["op"] == "error":
+        st["etype"], st["code"] = rn.pick([[1, 8], [1, 7], [1, 0], [1, 2],
+                                           [3, 0], [2, 4], [4, 0]])
+        st["same_xid"] = rn.chance(0.25)
   r7 = Rng(mix(seed, "big"))
   if r7.chance(0.03):
     # a table dump: one flow-stats reply of 17-20 nearly full (64 KB) parts,
@@ -540,6 +551,19 @@ def _drive(sim, plan, known, hit):
       emit(W.enc_packet_in(nx(), W.NO_BUFFER, len(data), 1, 0, data))
     elif op == "barrier":
       emit(W.enc_barrier_reply(nx()))
+    elif op == "error":
+      # (about some other request of the controller's -- a packet_out with a
+      # stale buffer, a refused flow_mod --, quoting its first bytes)
+      x = order[-1] if (st.get("same_xid") and order) else nx()
+      emit(W.enc_error(x, st["etype"], st["code"],
+                       W.msg(13, x, b"\0" * 8)[:16]))
+      sim.probes["noise_error_between_messages"] += 1
+      if order:
+        sim.probes["noise_error_inside_pending_reply"] += 1
+    elif op == "flow_removed":
+      emit(W.enc_flow_removed(nx(), {}))
+    elif op == "config_reply":
+      emit(W.msg(8, nx(), struct.pack("!HH", 0, 128)))
     elif op == "lose":
       sim.drain()
       peer.close()
